@@ -5,43 +5,63 @@ import LZ4V.Proofs.DecodeFun4
 namespace LZ4V.Model.Decode
 open LZ4V.Model LZ4V.Gen LZ4V.Spec.Block
 
-/-- the call geometry of the safety proofs, plus: full (non-partial) decoding, and a 64 KB prefix really is in front of `dst` -/
+/-- the call geometry of the safety proofs, plus: a 64 KB prefix really is in front of `dst` -/
 structure WF2 (env : Env) (N : Nat) : Prop where
   wf  : WF env N
   pfx : env.dict = .withPrefix64k → env.low.toNat + 65535 ≤ env.dst0
-  np  : env.partialD = false
 
-/-- what a match leaves behind: `out` is the specification's output after the literals of this sequence -/
-def MatchPost (env : Env) (st : St) (ip offset length : Nat) (out : List UInt8) (s' : St) : Prop :=
-  s'.ip = ip ∧ s'.op = st.op + length ∧
-  (1 ≤ offset → offset ≤ out.length ∧ ∃ out2, copyMatch out offset length = some out2 ∧ Rel env s'.buf s'.op out2)
+def nextSt : Next → St
+  | .fast s => s
+  | .safe s => s
+  | .done s => s
+
+/-- what a copy of `mlen` match bytes leaves behind: `out` is the specification's output after the literals of this sequence -/
+def CopyPost (env : Env) (st : St) (ip offset mlen : Nat) (out : List UInt8) (s' : St) : Prop :=
+  s'.ip = ip ∧ s'.op = st.op + mlen ∧
+  (1 ≤ offset → offset ≤ out.length ∧ ∃ out2, copyMatch out offset mlen = some out2 ∧ Rel env s'.buf s'.op out2)
+
+/-- what a match leaves behind: the whole match and the loop goes on, or — partial decoding only — as much of it as fits,
+    with the output then full -/
+def MatchPost (env : Env) (N : Nat) (st : St) (ip offset length : Nat) (out : List UInt8) (next : Next) : Prop :=
+  ∃ s' mlen, mlen ≤ length ∧ CopyPost env st ip offset mlen out s' ∧
+    ((mlen = length ∧ (next = .safe s' ∨ next = .fast s')) ∨ (env.partialD = true ∧ s'.op = N ∧ nextSt next = s'))
 
 theorem extDictMatch_ok (env : Env) (N : Nat) (hw : WF2 env N) (st : St) (ip back length offset : Nat)
-    (hsz : st.buf.size = N) (hd0 : env.dst0 ≤ st.op) (hne : env.dict = .usingExtDict)
+    (hsz : st.buf.size = N) (hd0 : env.dst0 ≤ st.op) (hop : st.op ≤ N) (hne : env.dict = .usingExtDict)
     (out : List UInt8) (hrel : Rel env st.buf st.op out) (hback : (back : Int) = env.low + offset - st.op) (hbpos : 0 < back)
-    (s' : St) (h : extDictMatch env st ip back length = .ok s') : MatchPost env st ip offset length out s' := by
+    (s' : St) (h : extDictMatch env st ip back length = .ok s') :
+    ∃ mlen, mlen ≤ length ∧ (mlen < length → env.partialD = true ∧ st.op + mlen = N) ∧ CopyPost env st ip offset mlen out s' := by
   have hlow := hw.wf.low_nn (by rw [hne]; intro hc; cases hc)
   have hlow2 := hw.wf.low_le
   have hL : (env.low.toNat : Int) = env.low := Int.toNat_of_nonneg hlow
   have hlen := hrel.len
   have c5 : LASTLITERALS = 5 := rfl
   unfold extDictMatch at h
-  rw [c5, hw.np] at h
-  simp only [Bool.false_eq_true, not_false_eq_true, and_true] at h
-  by_cases h1 : st.op + length + 5 > st.buf.size
+  rw [c5, hsz] at h
+  dsimp only at h
+  by_cases h1 : st.op + length + 5 > N ∧ ¬ env.partialD = true
   · rw [if_pos h1] at h; cases h
-  · rw [if_neg h1, if_neg h1] at h
+  · rw [if_neg h1] at h
+    generalize hlg : (if st.op + length + 5 > N then min length (N - st.op) else length) = len at h
+    have hl1 : len ≤ length ∧ st.op + len ≤ N ∧ (len < length → env.partialD = true ∧ st.op + len = N) := by
+      rw [← hlg]
+      by_cases hc : st.op + length + 5 > N
+      · rw [if_pos hc]
+        have hp : env.partialD = true := Classical.byContradiction (fun hn => h1 ⟨hc, hn⟩)
+        refine ⟨Nat.min_le_left _ _, by omega, fun hlt => ⟨hp, by omega⟩⟩
+      · rw [if_neg hc]; exact ⟨Nat.le_refl _, by omega, fun hlt => absurd hlt (Nat.lt_irrefl _)⟩
+    refine ⟨len, hl1.1, hl1.2.2, ?_⟩
     by_cases h2 : back > env.ext.size
     · rw [if_pos h2] at h; cases h
     · rw [if_neg h2] at h
-      by_cases h3 : length ≤ back
+      by_cases h3 : len ≤ back
       · rw [if_pos h3] at h
         obtain ⟨b, hb, h⟩ := bind_ok h
         simp only [pure, Except.pure, Except.ok.injEq] at h
         subst h
         obtain ⟨c1, c2, c3, _⟩ := copyIn_spec _ _ _ _ _ _ _ hb
         refine ⟨rfl, rfl, fun ho => ⟨by omega, ?_⟩⟩
-        obtain ⟨out2, ho1, ho2, _⟩ := hrel.copy (b := b) (by omega) (fun j hj => c2 j (Or.inl hj)) offset length ho (by omega) (by omega) (by
+        obtain ⟨out2, ho1, ho2, _⟩ := hrel.copy (b := b) (by omega) (fun j hj => c2 j (Or.inl hj)) offset len ho (by omega) (by omega) (by
           intro i hi
           unfold vw
           rw [if_neg (by omega), if_pos (by omega)]
@@ -56,13 +76,13 @@ theorem extDictMatch_ok (env : Env) (N : Nat) (hw : WF2 env N) (st : St) (ip bac
         simp only [pure, Except.pure, Except.ok.injEq] at h
         subst h
         obtain ⟨c1, c2, c3, _⟩ := copyIn_spec _ _ _ _ _ _ _ hb1
-        have hf : fwd b1 (st.op + back) env.low.toNat (length - back) = .ok b2 := by
+        have hf : fwd b1 (st.op + back) env.low.toNat (len - back) = .ok b2 := by
           split at hb2
           · exact hb2
           · exact memcpyB_fwd hb2
         refine ⟨rfl, rfl, fun ho => ⟨by omega, ?_⟩⟩
-        have e := (Ext.refl b1 (st.op + back) offset).fwd (length - back) (st.op + back) env.low.toNat b2 hf 1 ho (by omega) (by omega) (by omega) (by omega) (by omega)
-        obtain ⟨out2, ho1, ho2, _⟩ := hrel.copy (b := b2) (by omega) (fun j hj => by rw [e.low j (by omega), c2 j (Or.inl hj)]) offset length ho (by omega)
+        have e := (Ext.refl b1 (st.op + back) offset).fwd (len - back) (st.op + back) env.low.toNat b2 hf 1 ho (by omega) (by omega) (by omega) (by omega) (by omega)
+        obtain ⟨out2, ho1, ho2, _⟩ := hrel.copy (b := b2) (by omega) (fun j hj => by rw [e.low j (by omega), c2 j (Or.inl hj)]) offset len ho (by omega)
           (by rw [e.size]; omega) (by
           intro i hi
           unfold vw
@@ -78,12 +98,14 @@ theorem extDictMatch_ok (env : Env) (N : Nat) (hw : WF2 env N) (st : St) (ip bac
         exact ⟨out2, ho1, ho2⟩
 
 theorem extDictMatch_bad (env : Env) (st : St) (ip back length ip' : Nat) (h : extDictMatch env st ip back length = .error (.bad ip')) :
-    ¬ (st.op + length + 5 ≤ st.buf.size) := by
+    ¬ (env.partialD = true ∨ st.op + length + 5 ≤ st.buf.size) := by
   unfold extDictMatch at h
   have c5 : LASTLITERALS = 5 := rfl
   dsimp only at h
   split at h
-  · omega
+  · rename_i hc; intro hv; rcases hv with hv | hv
+    · exact hc.2 hv
+    · omega
   · generalize (if st.op + length + LASTLITERALS > st.buf.size then min length (st.buf.size - st.op) else length) = len at h
     split at h
     · cases h
@@ -101,16 +123,29 @@ theorem extDictMatch_bad (env : Env) (st : St) (ip back length ip' : Nat) (h : e
               · exact absurd h (memcpyB_nb _ _ _ _ _)
             · cases h
 
+/-- an in-buffer LZ77 copy at the sequence's offset is the specification's `copyMatch` -/
+theorem ext_post (env : Env) (buf b : Bytes) (op offset length : Nat) (out1 : List UInt8) (hrel : Rel env buf op out1)
+    (hL : env.low.toNat ≤ op) (hmL : env.low.toNat + offset ≤ op) (ho : 1 ≤ offset) (e : Ext buf b op offset (op + length))
+    (hsz : op + length ≤ buf.size) :
+    offset ≤ out1.length ∧ ∃ out2, copyMatch out1 offset length = some out2 ∧ Rel env b (op + length) out2 := by
+  have hlen := hrel.len
+  refine ⟨by omega, ?_⟩
+  obtain ⟨out2, ho1, ho2, _⟩ := hrel.copy (b := b) hL e.low offset length ho (by omega) (by rw [e.size]; omega)
+    (vw_per_of_Per env b op offset length out1.length hL hlen hmL e.per)
+  exact ⟨out2, ho1, ho2⟩
+
 /-- label `safe_match_copy` -/
 theorem safeMatch_sim (env : Env) (N : Nat) (hw : WF2 env N) (st : St) (ip offset length : Nat)
-    (hsz : st.buf.size = N) (hd0 : env.dst0 ≤ st.op) (out : List UInt8) (hrel : Rel env st.buf st.op out) :
-    Sim (fun next => ∃ s', next = Next.safe s' ∧ MatchPost env st ip offset length out s')
-        (1 ≤ offset ∧ offset ≤ out.length ∧ st.op + length + 5 ≤ N)
+    (hsz : st.buf.size = N) (hd0 : env.dst0 ≤ st.op) (hop : st.op ≤ N) (out : List UInt8) (hrel : Rel env st.buf st.op out) :
+    Sim (MatchPost env N st ip offset length out)
+        (1 ≤ offset ∧ offset ≤ out.length ∧ (env.partialD = true ∨ st.op + length + 5 ≤ N))
         (safeMatch env st ip offset length) := by
   have hlow2 := hw.wf.low_le
   have hlen := hrel.len
   have hE := hw.wf.ext_sz
   unfold safeMatch
+  have c12 : MATCH_SAFEGUARD_DISTANCE = 12 := rfl
+  rw [c12, hsz]
   dsimp only
   by_cases chk : env.dictSize < 65536 ∧ (st.op : Int) - offset + env.dictSize < env.low
   · rw [if_pos chk]
@@ -126,61 +161,96 @@ theorem safeMatch_sim (env : Env) (N : Nat) (hw : WF2 env N) (st : St) (ip offse
         obtain ⟨s', hs', hn⟩ := bind_ok hn
         simp only [pure, Except.pure, Except.ok.injEq] at hn
         subst hn
-        exact ⟨s', rfl, extDictMatch_ok env N hw st ip _ length offset hsz hd0 hx.1 out hrel (by omega) (by omega) s' hs'⟩
+        obtain ⟨mlen, hm1, hm2, hcp⟩ := extDictMatch_ok env N hw st ip _ length offset hsz hd0 hop hx.1 out hrel (by omega) (by omega) s' hs'
+        refine ⟨s', mlen, hm1, hcp, ?_⟩
+        by_cases hml : mlen < length
+        · right; exact ⟨(hm2 hml).1, by rw [hcp.2.1]; exact (hm2 hml).2, rfl⟩
+        · left; exact ⟨by omega, Or.inl rfl⟩
       · intro ip' hb
         rcases bind_bad hb with hb | ⟨s', _, hb⟩
         · have := extDictMatch_bad env st ip _ length ip' hb
           rintro ⟨_, _, h3⟩
-          omega
+          rw [hsz] at this
+          exact this h3
         · cases hb
     · rw [if_neg hx]
       by_cases hm0 : (st.op : Int) - offset < 0
       · rw [if_pos hm0]; exact Sim.fault
-      · rw [if_neg hm0, hw.np]
-        simp only [Bool.false_eq_true, false_and, if_false]
+      · rw [if_neg hm0]
         have hmL : env.low ≤ (st.op : Int) - offset := by
           by_cases hd : env.dict = .usingExtDict
           · have := not_and.mp hx hd; omega
           · have := hw.wf.nodict hd
             have := not_and.mp chk (by omega)
             omega
-        apply Sim.intro
-        · intro next hn
-          obtain ⟨b, hb, hn⟩ := bind_ok hn
-          simp only [pure, Except.pure, Except.ok.injEq] at hn
-          subst hn
-          refine ⟨_, rfl, rfl, rfl, fun ho => ?_⟩
-          obtain ⟨e, hfit⟩ := safeMatchCopy_ok st.buf ip st.op _ offset length b hb ho (by omega)
-          refine ⟨by omega, ?_⟩
-          obtain ⟨out2, ho1, ho2, _⟩ := hrel.copy (b := b) (by omega) e.low offset length ho (by omega) (by rw [e.size]; omega)
-            (vw_per_of_Per env b st.op offset length out.length (by omega) hlen (by omega) e.per)
-          exact ⟨out2, ho1, ho2⟩
-        · intro ip' hb
-          rcases bind_bad hb with hb | ⟨b, _, hb⟩
-          · have := safeMatchCopy_bad _ _ _ _ _ _ _ hb
-            rintro ⟨_, _, h3⟩
-            omega
-          · cases hb
+        by_cases hpart : env.partialD = true ∧ st.op + length + 12 > N
+        · rw [if_pos hpart]
+          apply Sim.intro
+          · intro next hn
+            obtain ⟨b, hb, hn⟩ := bind_ok hn
+            have hf : fwd st.buf st.op ((st.op : Int) - offset).toNat (min length (N - st.op)) = .ok b := by
+              split at hb
+              · exact hb
+              · exact memcpyB_fwd hb
+            have hcp : CopyPost env st ip offset (min length (N - st.op)) out ⟨ip, st.op + min length (N - st.op), b⟩ := by
+              refine ⟨rfl, rfl, fun ho => ?_⟩
+              have e := (Ext.refl st.buf st.op offset).fwd _ st.op _ b hf 1 ho (by omega) (by omega) (by omega) (by omega) (by omega)
+              exact ext_post env st.buf b st.op offset _ out hrel (by omega) (by omega) ho e (by omega)
+            refine ⟨⟨ip, st.op + min length (N - st.op), b⟩, min length (N - st.op), Nat.min_le_left _ _, hcp, ?_⟩
+            by_cases hfull : st.op + min length (N - st.op) = N
+            · rw [if_pos hfull] at hn
+              simp only [pure, Except.pure, Except.ok.injEq] at hn
+              subst hn
+              right; exact ⟨hpart.1, hfull, rfl⟩
+            · rw [if_neg hfull] at hn
+              simp only [pure, Except.pure, Except.ok.injEq] at hn
+              subst hn
+              left; exact ⟨by omega, Or.inl rfl⟩
+          · intro ip' hb
+            rcases bind_bad hb with hb | ⟨b, _, hb⟩
+            · split at hb
+              · exact absurd hb (fwd_nb _ _ _ _ _)
+              · exact absurd hb (memcpyB_nb _ _ _ _ _)
+            · split at hb <;> cases hb
+        · rw [if_neg hpart]
+          apply Sim.intro
+          · intro next hn
+            obtain ⟨b, hb, hn⟩ := bind_ok hn
+            simp only [pure, Except.pure, Except.ok.injEq] at hn
+            subst hn
+            refine ⟨⟨ip, st.op + length, b⟩, length, Nat.le_refl _, ⟨rfl, rfl, fun ho => ?_⟩, Or.inl ⟨rfl, Or.inl rfl⟩⟩
+            obtain ⟨e, hfit⟩ := safeMatchCopy_ok st.buf ip st.op _ offset length b hb ho (by omega)
+            exact ext_post env st.buf b st.op offset length out hrel (by omega) (by omega) ho e (by omega)
+          · intro ip' hb
+            rcases bind_bad hb with hb | ⟨b, _, hb⟩
+            · have := safeMatchCopy_bad _ _ _ _ _ _ _ hb
+              rintro ⟨_, _, h3⟩
+              rcases h3 with h3 | h3
+              · have := not_and.mp hpart h3; omega
+              · omega
+            · cases hb
 
 /-- label `_copy_match` : the match-length field, then the match -/
 theorem copyMatchLbl_sim (env : Env) (N : Nat) (hw : WF2 env N) (st : St) (ip offset token : Nat)
-    (hsz : st.buf.size = N) (hd0 : env.dst0 ≤ st.op) (out : List UInt8) (hrel : Rel env st.buf st.op out) :
-    Sim (fun next => ∃ s' ml, next = Next.safe s' ∧ readField (token % 16) (rem env.src ip) = some (ml - 4, rem env.src s'.ip) ∧ 4 ≤ ml ∧
-                      ip ≤ s'.ip ∧ MatchPost env st s'.ip offset ml out s')
+    (hsz : st.buf.size = N) (hd0 : env.dst0 ≤ st.op) (hop : st.op ≤ N) (out : List UInt8) (hrel : Rel env st.buf st.op out) :
+    Sim (fun next => ∃ ml ip', readField (token % 16) (rem env.src ip) = some (ml - 4, rem env.src ip') ∧ 4 ≤ ml ∧
+                      ip ≤ ip' ∧ MatchPost env N st ip' offset ml out next)
         (∃ v rest, readField (token % 16) (rem env.src ip) = some (v, rest) ∧ (v ≥ 15 → ip + (v - 15) / 255 + 1 + 4 ≤ env.src.size) ∧
-                   1 ≤ offset ∧ offset ≤ out.length ∧ st.op + (v + 4) + 5 ≤ N)
+                   1 ≤ offset ∧ offset ≤ out.length ∧ (env.partialD = true ∨ st.op + (v + 4) + 5 ≤ N))
         (copyMatchLbl env st ip offset token) := by
   unfold copyMatchLbl
   apply Sim.bind ((matchLen_sim env.src ip token).mono (fun a _ h => h) (by rintro ⟨v, rest, h1, h2, _⟩; exact ⟨v, rest, h1, h2⟩))
   intro r _ hr
   obtain ⟨hr1, hr2, hr3, _⟩ := hr
-  apply (safeMatch_sim env N hw st r.2 offset r.1 hsz hd0 out hrel).mono
-  · rintro next _ ⟨s', hs1, hs2⟩
-    have : s'.ip = r.2 := hs2.1
-    exact ⟨s', r.1, hs1, by rw [this]; exact hr1, hr2, by omega, by rw [this]; exact hs2⟩
+  apply (safeMatch_sim env N hw st r.2 offset r.1 hsz hd0 hop out hrel).mono
+  · intro next _ hmp
+    exact ⟨r.1, r.2, hr1, hr2, by omega, hmp⟩
   · rintro ⟨v, rest, h1, _, h3, h4, h5⟩
     rw [hr1] at h1
     simp only [Option.some.injEq, Prod.mk.injEq] at h1
-    exact ⟨h3, h4, by omega⟩
+    refine ⟨h3, h4, ?_⟩
+    rcases h5 with h5 | h5
+    · exact Or.inl h5
+    · right; omega
 
 end LZ4V.Model.Decode
